@@ -32,6 +32,7 @@ type Engine struct {
 	needVarint  bool
 	needProto   bool
 	needStrID   bool
+	needB64     bool
 	needMapHas  bool
 	needApplyRB bool
 	needUnicode bool
@@ -474,6 +475,11 @@ func (e *Engine) prelude() string {
 	if e.needProto {
 		b.WriteString("(declare-fun fdIsList (Int) Bool)\n(declare-fun fdIsMap (Int) Bool)\n(declare-fun fdMsg (Int) Int)\n(declare-fun valkind (Int Int Int) Int)\n(declare-fun fdOwner (Int) Int)\n")
 		b.WriteString("(assert (forall ((f Int)) (! (and (>= (fdMsg f) 0) (not (and (fdIsList f) (fdIsMap f))) (=> (fdIsMap f) (not (= (fdMsg f) 0)))) :pattern ((fdMsg f)))))\n")
+	}
+	if e.needB64 {
+		fmt.Fprintf(&b, "(declare-fun b64ok_std (%s Int Int) Bool)\n(declare-fun b64ok_raw (%s Int Int) Bool)\n", sAI, sAI)
+		fmt.Fprintf(&b, "(assert (forall ((a %s) (o Int) (n Int)) (! (=> (b64ok_std a o n) (= (mod n 4) 0)) :pattern ((b64ok_std a o n)))))\n", sAI)
+		fmt.Fprintf(&b, "(assert (forall ((a %s) (o Int) (n Int)) (! (=> (and (b64ok_raw a o n) (= (mod n 4) 0)) (b64ok_std a o n)) :pattern ((b64ok_raw a o n)))))\n", sAI)
 	}
 	if e.needStrID {
 		fmt.Fprintf(&b, "(declare-fun strid (%s Int Int) Int)\n", sAI)
